@@ -848,8 +848,11 @@ def monitor(kind, line, o):
         if len(og) != 4 or len(og[0]) != n or len(og[1]) != n or len(og[2]) != n * m or len(og[3]) != n * m: return ["malformed result"]
         msgs = []
         X, Y = mat(n, m, og[2]), mat(m, n, og[3])
-        if Y != tr(X): msgs.append("solve(trans(B),right) is not the transpose of solve(B,left) for a symmetric matrix")
-        if og[0] != og[1]: msgs.append("vector solve left and right differ")
+        # the right solve runs on the transposed storage (other summation order in the matrix product): equal up to rounding
+        mm = near(Y, tr(X), F_TOL * max(1, amax(X)), "solve(trans(B),right) vs transpose of solve(B,left), symmetric matrix")
+        if mm: msgs.append(mm)
+        mm = near([og[0]], [og[1]], F_TOL * max(1, amax([og[0]])), "vector solve left vs right")
+        if mm: msgs.append(mm)
         if maxit == 0:
             # returned through the stopping rule: the TRUE residual is below the coded threshold (up to rounding of the maintained residual)
             for (xx, bb, nm) in (([[v] for v in og[0]], [[r[0]] for r in b], "solve(b)"), (X, b, "solve(B)")):
